@@ -38,11 +38,11 @@ theorem psteps_prefix : ∀ (done a b : Pool) (s : State),
 theorem owners_thr (s0 : State) (evs : List PodEv) : (evs.map (thr s0)).map (·.1) = evs.map PodEv.id := by
   simp [thr, List.map_map, Function.comp_def]
 
-theorem safe_thr {s0 : State} {evs : List PodEv} (hpre : ∀ ev ∈ evs, ev.Pre s0) :
+theorem safe_thr {s0 : State} {evs : List PodEv} (hg : Good s0) (hpre : ∀ ev ∈ evs, ev.Pre s0) :
     ∀ th ∈ evs.map (thr s0), Safe (stat s0) th.1 (localOf s0 (cntOf s0) th.1) th.2 := by
   intro th hth
   obtain ⟨ev, hev, rfl⟩ := List.mem_map.mp hth
-  exact PodEv.safe (hpre ev hev)
+  exact PodEv.safe hg (hpre ev hev)
 
 theorem handlers_seq_eq {s0 : State} (hg : Good s0) : ∀ (rest pre : List PodEv),
     ((pre ++ rest).map PodEv.id).Nodup → (∀ ev ∈ pre ++ rest, ev.Pre s0) →
@@ -50,7 +50,7 @@ theorem handlers_seq_eq {s0 : State} (hg : Good s0) : ∀ (rest pre : List PodEv
   | [], pre, _, _ => by simp [run]
   | ev :: t, pre, hn, hpre => by
     have hown : (((pre ++ ev :: t).map (thr s0)).map (·.1)).Nodup := by rw [owners_thr]; exact hn
-    have hsafe := safe_thr hpre
+    have hsafe := safe_thr hg hpre
     -- the configuration after the handlers of `pre` ran sequentially
     have hreach : PSteps (s0, (pre ++ ev :: t).map (thr s0))
         (runThreads s0 (pre.map (thr s0)), finished (pre.map (thr s0)) ++ (ev :: t).map (thr s0)) := by
@@ -97,7 +97,7 @@ theorem handlers_serializable {s0 : State} {evs : List PodEv} (hg : Good s0) (hn
   have hseq := handlers_seq_eq hg evs [] (by simpa using hn) (by simpa using hpre)
   simp only [List.map_nil, runThreads, List.foldl_nil, List.nil_append] at hseq
   have hown : ((evs.map (thr s0)).map (·.1)).Nodup := by rw [owners_thr]; exact hn
-  have := interleaving_serializable hg hown (safe_thr hpre) hs hq
+  have := interleaving_serializable hg hown (safe_thr hg hpre) hs hq
   rw [show runThreads s0 (evs.map (thr s0)) = run s0 (evs.map PodEv.op) from hseq.symm] at this
   exact this
 
@@ -108,7 +108,7 @@ theorem handlers_between {s0 : State} {evs : List PodEv} (hg : Good s0) (hn : (e
     ∃ c, CI s c ∧ (∀ j, j ∉ pool.map (·.1) → ∀ m, Settled s c m j) ∧
       ∀ m q, get? s m = some q → RNonneg q ∧ UNonneg q := by
   have hown : ((evs.map (thr s0)).map (·.1)).Nodup := by rw [owners_thr]; exact hn
-  obtain ⟨c, hc, hset⟩ := interleaving_invariant hg hown (safe_thr hpre) hs
+  obtain ⟨c, hc, hset⟩ := interleaving_invariant hg hown (safe_thr hg hpre) hs
   refine ⟨c, hc, hset, fun m q hq => ⟨?_, ?_⟩⟩
   · exact reqNonneg_of_eqs hc.topo.tree (fun q hq => (hc.params q hq).1) hc.req m q hq
   · exact usedNonneg_of_eqs hc.topo.tree hc.used m q hq
